@@ -30,7 +30,16 @@ RULE = ("every mask of every shape with H*W <= 4 (quick) / <= 6 (thorough) x {ma
         "chi_squared_with_noise_covariance_from.  INTERFEROMETER: FitInterferometer on real Interferometer datasets of 1-6 "
         "visibilities (both use_mask_in_fit settings, with / without inversion), read, in-place edits, re-read, second fit object; "
         "the complex fit_util functions on ndarrays.  Inversions with a Preloads object carrying the true regularization matrix / "
-        "log-determinant. "
+        "log-determinant.  PHASE 4: input KINDS (int64 / int32 / int8 / bool / float32 / list-built data, noise, model arrays; plain "
+        "ndarray model data; Visibilities from float pairs / lists / complex64); subclasses three / four levels deep; every DEFAULT "
+        "ARGUMENT object of the constructors and the caller's settings / preloads / DatasetModel objects fingerprinted around each "
+        "case; DatasetModel histories (the fit's own default object edited, a DatasetModel shared by two fits); inversions built with "
+        "the constructor's own default settings / preloads; a direct AbstractFit subclass; constructed rare states (negative pivots in "
+        "the sparse LU factorisation, objects with 0 / 3 parameters); util functions called a second time on the same arguments after "
+        "in-place edits; production inversions (aa.Inversion -> InversionImagingMapping / InversionImagingWTilde, mapping-matrix "
+        "mappers or a real MapperRectangular, PSF, two inversions on one Preloads object with / without a preloaded curvature matrix, "
+        "the fit on top) compared within 1e-9 on snapshots of F and s; a persistent canary fit / inversion re-evaluated after every "
+        "case with in-place edits toggled (state remembered across evaluations or left behind in shared objects). "
         "A case is non-trivial unless it is a bare composition call; distinct = distinct JSON input.")
 EXHAUSTIVE = {
     "quick": "all masks of all shapes with H*W <= 4 x 2 modes x 2 sky settings x inversion kinds (4 kinds for H*W <= 3; none / "
@@ -177,6 +186,7 @@ def gen_inv(rng, kind, structure=None, scales=(0, 0, 0), mappers=None):
           "s": [float(rng.randint(-3, 3)) * 2.0 ** es for _ in range(tot)]}
     if mappers is None and rng.random() < 0.5: mappers = [rng.randint(0, 1) for _ in structure]
     if mappers is not None: iv["mappers"] = [int(b) for b in mappers]
+    if rng.random() < 0.3: iv["deep"] = True       # linear objects / regularizations that are subclasses of subclasses
     return iv
 
 def gen_fit(rng, h, w, maskbits, mode, sky, invkind, via, route="fresh", geom=0, scale=(0, 0), special=None):
@@ -270,6 +280,129 @@ def gen_hist(rng):
     return {"op": "hist", "base": base, "edits": edits, "maskflip": maskflip, "model2": model2, "sky2": sky2,
             "twin": twin, "order": order, "sky_edit": sky_edit}
 
+def gen_kinds(rng, f32fine=False):
+    """input KINDS: integer- / bool- / float32-typed and list-built data, noise and model arrays (the model also as a plain
+    ndarray), where float64 Array2D objects are usual.  The model data is float-typed (or the data is), so that the residual
+    is a float array: np.divide(..., out=np.zeros_like(residual)) refuses integer residuals in the current code."""
+    mode = rng.choice(["slim", "slim", "native_nomask", "native"])
+    h, w = rng.randint(1, 4), rng.randint(1, 4); n = h * w
+    p = rng.choice([0.0, 0.3, 0.6])
+    bits = [1 if (rng.random() < p and mode != "native_nomask") else 0 for _ in range(n)]
+    dk = rng.choice(["int64", "int64", "int32", "int8", "bool", "float32", "list", "list", "float64"])
+    nk = rng.choice(["float64", "float64", "int64", "int32", "list"])
+    mk = rng.choice(["float64", "float64", "float32"] + (["int64"] if dk.startswith("float") else []))
+    if f32fine:
+        dk, nk, mk = "float32", "float64", "float64"
+        if mode == "native": mode = "slim"; bits = [1 if rng.random() < p else 0 for _ in range(n)]
+    model_nd = rng.random() < 0.35
+    if dk == "float64" and nk == "float64" and mk == "float64": model_nd = True
+    sky = rng.choice([0.0, 0.0] + SKIES)
+    quarters = dk in ("float32", "float64") or (dk == "list" and rng.random() < 0.4)
+    d, nz, m = [], [], []
+    for i in range(n):
+        masked = bits[i] and mode == "native"
+        if dk == "bool": dv = float(rng.randint(0, 1))
+        elif masked: dv = float(rng.choice([-100, 0, 99]))
+        elif "float32" in (dk, mk):
+            # a float32 residual / data array makes the code divide in float32: data - sky is a power of two (or zero), so
+            # that the residual flux fraction is exact in either precision
+            dv = sky + rng.choice([0.0, 0.25, 0.5, 1.0, 2.0, 4.0, 8.0, -0.25, -0.5, -1.0, -2.0, -4.0])
+        else: dv = rnd_val(rng) if quarters else float(rng.randint(-20, 20))
+        if masked: nv = float(rng.choice([0, -4, 2]))
+        else: nv = float(rng.choice([1, 2, 4, 8])) if nk != "float64" else rng.choice(NOISE)
+        mv = float(rng.randint(-20, 20)) if mk == "int64" else rnd_val(rng)
+        if masked and mk != "int64": mv = rng.choice([-3.0, 0.0, 1048576.0])
+        d.append(dv); nz.append(nv); m.append(mv)
+    if mk != "int64" and all(x == round(x) for x in m): m[rng.randrange(n)] += 0.25     # a float-valued model
+    tolerant = False
+    if dk == "float32" and mk == "float64" and nk == "float64" and mode != "native":
+        # the residual needs more than the 24 bits of the data's type: a buffer that inherits float32 shows at 6e-8; double
+        # rounding (squares, sums) is visible too, so these cases are compared within 1e-9 (KFitR).  Not on the masked-native
+        # path, which writes into np.zeros_like(data) in the current code (float32 results there)
+        m = [x + rng.randint(1, 2 ** 20 - 1) * 2.0 ** -30 for x in m]; tolerant = True
+    invkind = rng.choice(["noinv", "noinv", "noinv", "partial"])
+    via = "imaging" if sky != 0.0 else rng.choice(["imaging", "fitdataset"] + (["abstract"] if (mode != "native" and invkind == "noinv") else []))
+    return {"op": "fit", "shape": [h, w], "mask": bits, "mode": mode, "sky": sky, "data": d, "noise": nz, "model": m,
+            "inv": None if invkind == "noinv" else gen_inv(rng, invkind), "via": via,
+            "dtypes": {"data": dk, "noise": nk, "model": mk}, "model_nd": model_nd, "geom": rng.randint(0, 3), "tolerant": tolerant}
+
+def gen_dmhist(rng):
+    """histories on DatasetModel objects: the fit's OWN default object (none passed), edited by the user, must not leak into
+    the next fit built with the default; one DatasetModel object shared by two fits, edited between the reads"""
+    base = rnd_fit(rng, ["imaging"], sky=0.0, geom=rng.randint(0, 3))
+    base["data"] = [(-4096.0 if abs(x) > 1e20 else x) for x in base["data"]]       # data - sky stays exact
+    h, w = base["shape"]; n = h * w
+    native = base["mode"] != "slim"
+    model2 = [(rng.choice(G_MODEL) if (base["mask"][i] and native) else rnd_val(rng)) for i in range(n)]
+    return {"op": "dmhist", "base": base, "model2": model2, "s1": rng.choice(SKIES), "s2": rng.choice(SKIES + [0.0]),
+            "s3": rng.choice(SKIES), "sub": bool(rng.randint(0, 1))}
+
+def neg_pivot_spd(rng, n):
+    """RARE STATE, constructed: a positive definite matrix whose sparse LU factorisation (scipy splu, as used by
+    log_det_regularization_matrix_term) has NEGATIVE entries on the diagonal of U (row permutations of odd sign): the
+    log-determinant is then the real part of a sum of complex logarithms"""
+    from scipy.sparse import csc_matrix
+    from scipy.sparse.linalg import splu
+    for _ in range(4000):
+        M = spd(rng, n)
+        lu = splu(csc_matrix(np.array(M)))
+        if (lu.U.diagonal() < 0).any() or (lu.L.diagonal() < 0).any(): return M
+    return spd(rng, n)
+
+def gen_inv_negpivot(rng):
+    k = rng.randint(1, 2)
+    st = [(rng.choice([2, 3]), 1)] + [(rng.randint(1, 2), rng.randint(0, 1)) for _ in range(k - 1)]
+    rng.shuffle(st)
+    iv = gen_inv(rng, None, st)
+    iv["blocks"] = [(neg_pivot_spd(rng, p) if (r and p >= 2) else b) for (p, r), b in zip(st, iv["blocks"])]
+    return iv
+
+PSFS = [[[0.0, 0.0, 0.0], [0.0, 1.0, 0.0], [0.0, 0.0, 0.0]], [[0.0, 0.125, 0.0], [0.125, 0.5, 0.125], [0.0, 0.125, 0.0]],
+        [[0.0625, 0.0, 0.125], [0.25, 0.5, 0.0], [0.0, 0.0625, 0.0]]]
+def gen_prod(rng):
+    """PRODUCTION inversion classes (aa.Inversion factory -> InversionImagingMapping, and the class itself) on a real masked
+    Imaging dataset with a PSF: the curvature matrix, the data vector and the reconstruction are computed by the code from
+    mapping matrices; the anchored terms and the fit on top are then compared with the model on SNAPSHOTS of F and s.
+    Two inversions share the linear objects, the settings object and the Preloads object (optionally carrying a curvature matrix)"""
+    while True:
+        h, w = rng.choice([(2, 2), (2, 3), (3, 2), (1, 4), (3, 3), (4, 1)])
+        bits = [1 if rng.random() < 0.2 else 0 for _ in range(h * w)]
+        if bits.count(0) >= 3: break
+    npix = bits.count(0)
+    while True:
+        k = rng.randint(1, 3)
+        st = [(rng.randint(1, 2), rng.randint(0, 1)) for _ in range(k)]
+        tot = sum(p for p, _ in st)
+        if tot > min(npix, 5) or not any(r for _, r in st) and rng.random() < 0.7: continue
+        maps = [[[rng.randint(0, 4) / 4.0 for _ in range(p)] for _ in range(npix)] for p, _ in st]
+        if np.linalg.matrix_rank(np.hstack([np.array(m) for m in maps])) == tot: break
+    kinds = [("mapper" if r else rng.choice(["func", "func", "mapper"])) for _, r in st]
+    wt = [False, False]
+    if rng.random() < 0.45:
+        # a REAL MapperRectangular (its mapping matrix comes from the grids) and both production classes: the factory returns
+        # InversionImagingWTilde for use_w_tilde=True and InversionImagingMapping otherwise
+        h, w = rng.choice([(3, 3), (3, 4), (4, 3)])
+        bits = [1 if rng.random() < 0.15 else 0 for _ in range(h * w)]
+        npix = bits.count(0)
+        mesh = rng.choice([(2, 2), (1, 2), (2, 1), (1, 3), (2, 2)])
+        pm = mesh[0] * mesh[1]
+        wt = [bool(rng.randint(0, 1)), bool(rng.randint(0, 1))]
+        st = [(pm, 1)]; kinds = ["real"]; maps = [[]]
+        if not any(wt) and rng.random() < 0.5:
+            fm = [[rng.randint(0, 4) / 4.0] for _ in range(npix)]; fm[rng.randrange(npix)] = [1.0]
+            pos = rng.randint(0, 1)
+            st.insert(pos, (1, 0)); kinds.insert(pos, "func"); maps.insert(pos, fm)
+        tot = sum(p for p, _ in st)
+        real = list(mesh)
+    else: real = None
+    blocks = [spd(rng, p) if r else [] for p, r in st]
+    blocks2 = [spd(rng, p) if r else [] for p, r in st]
+    return {"op": "prod", "shape": [h, w], "mask": bits, "data": [rnd_val(rng) + 4.0 for _ in range(npix)],
+            "noise": [rng.choice(NOISE) for _ in range(npix)], "psf": rng.randrange(len(PSFS)), "objs": [[p, r] for p, r in st],
+            "kinds": kinds, "maps": maps, "blocks": blocks, "blocks2": blocks2, "sky": rng.choice([0.0, 0.0] + SKIES),
+            "preF": spd(rng, tot) if rng.random() < 0.5 else None, "factory2": bool(rng.randint(0, 1)),
+            "edge_zero": bool(rng.randint(0, 1)) and real is None, "deep": rng.random() < 0.3, "real": real, "wtilde": wt}
+
 def gen_invhist(rng):
     k = rng.randint(1, 3)
     st = [(rng.randint(1, 2), rng.randint(0, 1)) for _ in range(k)]
@@ -278,7 +411,9 @@ def gen_invhist(rng):
     b = gen_inv(rng, None, st, mappers=mappers)
     st2 = [(p, rng.randint(0, 1)) for p, _ in st]
     c = gen_inv(rng, None, st2, mappers=mappers)
-    return {"op": "invhist", "a": a, "F2": b["F"], "s2": b["s"], "c": c}
+    # shared: one SettingsInversion and one Preloads object handed to the three inversions; otherwise none is passed and the
+    # constructor's own DEFAULT ARGUMENTS are in force for all three
+    return {"op": "invhist", "a": a, "F2": b["F"], "s2": b["s"], "c": c, "shared": rng.random() < 0.5}
 
 def unit_lower(rng, n):
     L = [[0.0] * n for _ in range(n)]
@@ -324,7 +459,11 @@ def gen_vis(rng):
         edits.append([which, k, v])
     order = ["residual", "normres", "chimap", "chi2", "redchi2", "nn", "ll", "llreg", "evidence", "fom", "snr"]
     rng.shuffle(order)
-    return {"op": "vis", "use_mask": bool(rng.randint(0, 1)), "data": [z(c) for c in d], "model": [z(c) for c in m],
+    kinds = None
+    if rng.random() < 0.4:     # how the Visibilities objects are built: (n, 2) float pairs, a Python list, complex64
+        kinds = {"data": rng.choice(["pairs", "list", "listpairs", "c64", None]), "noise": rng.choice(["pairs", "list", "listpairs", None]),
+                 "model": rng.choice(["pairs", "list", "c64", None])}
+    return {"op": "vis", "kinds": kinds, "use_mask": bool(rng.randint(0, 1)), "data": [z(c) for c in d], "model": [z(c) for c in m],
             "noise": [[rng.choice(NOISE) * 2.0 ** en, rng.choice(NOISE) * 2.0 ** en] for _ in range(n)],
             "inv": None if rng.random() < 0.5 else gen_inv(rng, rng.choice(["all", "partial", "none"])),
             "edits": edits, "model2": [z(cval(rng)) for _ in range(n)], "order": order}
@@ -332,6 +471,15 @@ def gen_vis(rng):
 def gen_inputs(tier, rng):
     big = tier == "thorough"
     vias = ["imaging", "imaging", "fitdataset"]
+    # The streams whose cases check for remembered state WITHIN the case come first: state leaked through a module-level or
+    # default object would also break later single-evaluation cases, whose replay alone does not reproduce the failure; the
+    # first failing case (the one written as the replay) is then a self-contained history.
+    # ---- inversion histories (shared / default settings and preloads objects), DatasetModel histories (default object, shared
+    # object), histories on one dataset / one fit object, production inversion classes
+    for _ in range(200 if big else 30): yield gen_invhist(rng)
+    for _ in range(80 if big else 20): yield gen_dmhist(rng)
+    for _ in range(600 if big else 80): yield gen_hist(rng)
+    for _ in range(100 if big else 25): yield gen_prod(rng)
     i = 0
     for (h, w) in shapes_upto(6 if big else 4):
         for bits in itertools.product([0, 1], repeat=h * w):
@@ -344,9 +492,12 @@ def gen_inputs(tier, rng):
                         yield gen_fit(rng, h, w, bits, mode, s, invkind, via)
     for _ in range(1200 if big else 100):
         yield rnd_fit(rng, vias, geom=rng.randint(0, 3))
-    # ---- histories on one dataset / one fit object; inversion histories
-    for _ in range(600 if big else 80): yield gen_hist(rng)
-    for _ in range(200 if big else 30): yield gen_invhist(rng)
+    # ---- input KINDS; the AbstractFit sibling
+    for _ in range(300 if big else 70): yield gen_kinds(rng)
+    for _ in range(60 if big else 12): yield gen_kinds(rng, f32fine=True)
+    for _ in range(100 if big else 25):
+        yield rnd_fit(rng, ["abstract"], mode=rng.choice(["slim", "native_nomask"]), sky=0.0, invkind="noinv", geom=rng.randint(0, 3),
+                      route=rng.choice(["fresh", "fresh", "arith", "copy"]))
     # ---- derived datasets / arrays
     for _ in range(800 if big else 100):
         mode = rng.choice(["native", "slim", "slim", "native_nomask"])
@@ -365,16 +516,31 @@ def gen_inputs(tier, rng):
         e = rng.choice([-40, -20, 0, 20, 40])
         yield {"op": "inv", "inv": gen_inv(rng, rng.choice(["all", "partial", "partial"]),
                                            scales=(e + rng.choice([-30, -8, 0]), e, rng.choice([-40, -7, 0, 9, 40]))), "junk": False}
+    # ---- rare states, constructed: negative pivots in the sparse LU factorisation; objects with 0 / 3 parameters
+    for _ in range(100 if big else 12):
+        yield {"op": "inv", "inv": gen_inv_negpivot(rng), "junk": False, "preload": False}
+    for _ in range(100 if big else 12):
+        k = rng.randint(1, 3)
+        st = [(rng.choice([0, 3, 3, 1]), rng.randint(0, 1)) for _ in range(k)]
+        st = [((p, 0) if p == 0 else (p, r)) for p, r in st]       # an object without parameters is never regularized
+        yield {"op": "inv", "inv": gen_inv(rng, None, st), "junk": False}
     for _ in range(1000 if big else 120):
         two_d = rng.random() < 0.5
         h, w = (rng.randint(1, 4), rng.randint(1, 4)) if two_d else (1, rng.randint(1, 9))
         n = h * w
         bits = [1 if rng.random() < rng.choice([0.0, 0.3, 0.7]) else 0 for _ in range(n)]
         e = rng.choice([0, 0, 0, -40, 40])
+        edits = None
+        if rng.random() < 0.4:
+            edits = []
+            for _ in range(rng.randint(1, 2)):
+                which = rng.choice(["data", "noise", "model"])
+                edits.append([which, rng.randrange(n), rng.choice(NOISE) if which == "noise" else rnd_val(rng) * 2.0 ** e])
         yield {"op": "util", "shape": [h, w] if two_d else [n], "mask": bits,
                "data": [(0.0 if rng.random() < 0.1 else rnd_val(rng) * 2.0 ** e) for _ in range(n)],
                "noise": [rng.choice(NOISE) for _ in range(n)], "model": [rnd_val(rng) * 2.0 ** e for _ in range(n)],
-               "wrap": bool(two_d and rng.random() < 0.4)}
+               "wrap": bool(two_d and rng.random() < 0.4),
+               "edits": edits}
     # ---- arbitrary preloaded regularization matrices / log-determinants
     for _ in range(300 if big else 40):
         iv = gen_inv(rng, rng.choice(["all", "partial", "partial", "none"]))
@@ -427,50 +593,105 @@ def classes():
         def inversion(self): return self._i
     class HReg(AbstractRegularization):
         """hands out the caller's matrix itself (fingerprinted after the reads)"""
-        def __init__(self, matrix):
+        def __init__(self, matrix, params=None):
             super().__init__(); self._matrix = np.array(matrix, dtype=float)
+            if params is not None: self._matrix = self._matrix.reshape((params, params))
         def regularization_matrix_from(self, linear_obj): return self._matrix
+    class HReg1(HReg):
+        pass
+    class HReg2(HReg1):
+        """a subclass of a subclass of a subclass (isinstance, not type(x) / __bases__ / a bounded __mro__, must decide)"""
+    class HMapper2(MockMapper):
+        """a subclass of a mapper class: LinearObj is four levels up"""
+    class HDatasetModel(aa.DatasetModel):
+        """a subclass instance where a DatasetModel is accepted"""
     class HObj(LinearObj):
         def __init__(self, params, regularization):
             super().__init__(regularization=regularization); self._p = params
         @property
         def params(self): return self._p
+    class HObj1(HObj):
+        pass
+    class HObj2(HObj1):
+        """LinearObj is three levels up"""
     class HInv(AbstractInversion):
         """the real AbstractInversion; only F (curvature_matrix) and s (reconstruction) are supplied.  Like the production
         subclasses, curvature_matrix hands out a freshly computed array (curvature_reg_matrix may add to it in place)."""
         def __init__(self, linear_obj_list, F, s, settings=None, preloads=None):
-            super().__init__(dataset=DatasetInterface(data=None, noise_map=None), linear_obj_list=linear_obj_list,
-                             settings=settings or SettingsInversion(), preloads=preloads or Preloads())
+            # nothing passed -> the class's OWN default arguments are in force (AbstractInversion shares one default
+            # SettingsInversion object between all inversions; fingerprinted around every case, see default_objects)
+            kw = {}
+            if settings is not None: kw["settings"] = settings
+            if preloads is not None: kw["preloads"] = preloads
+            super().__init__(dataset=DatasetInterface(data=None, noise_map=None), linear_obj_list=linear_obj_list, **kw)
             self._F = F; self._s = np.array(s, dtype=float)
         @cached_property
         def curvature_matrix(self): return np.array(self._F, dtype=float).reshape((len(self._s), len(self._s)))
         @cached_property
         def reconstruction(self): return self._s
+    from autoarray.fit.fit_dataset import AbstractFit
+    class HAbstractFit(AbstractFit):
+        """a direct subclass of AbstractFit (the base the unmasked branches of FitDataset delegate to)"""
+        def __init__(self, dataset, model_data): self.dataset = dataset; self._m = model_data
+        @property
+        def data(self): return self.dataset.data
+        @property
+        def noise_map(self): return self.dataset.noise_map
+        @property
+        def model_data(self): return self._m
     _CLS.update(aa=aa, HFitImaging=HFitImaging, HFitDataset=HFitDataset, HReg=HReg, HObj=HObj, HInv=HInv,
-                MockMapper=MockMapper, SettingsInversion=SettingsInversion, Preloads=Preloads)
+                MockMapper=MockMapper, SettingsInversion=SettingsInversion, Preloads=Preloads, HReg2=HReg2, HObj2=HObj2,
+                HDatasetModel=HDatasetModel, HAbstractFit=HAbstractFit, HMapper2=HMapper2, AbstractInversion=AbstractInversion,
+                FitDataset=FitDataset, FitImaging=FitImaging)
     return _CLS
 
 def make_objs(iv):
     c = classes()
     objs = []
     mappers = iv.get("mappers") or [0] * len(iv["objs"])
+    deep = bool(iv.get("deep"))
     for (p, r), b, mp in zip(iv["objs"], iv["blocks"], mappers):
-        reg = c["HReg"](b) if r else None
-        objs.append(c["MockMapper"](parameters=p, regularization=reg) if mp else c["HObj"](p, reg))
+        reg = c["HReg2" if deep else "HReg"](b, p) if r else None
+        objs.append(c["HMapper2" if deep else "MockMapper"](parameters=p, regularization=reg) if mp else c["HObj2" if deep else "HObj"](p, reg))
     return objs
 
 def make_inv(iv, junk=False, objs=None, settings=None, preloads=None):
     c = classes()
     return c["HInv"](objs if objs is not None else make_objs(iv), iv["F"], iv["s"], settings=settings, preloads=preloads)
 
+def obj_fp(x, depth=0):
+    """a comparable fingerprint of an argument object (its attributes, recursively; arrays by content)"""
+    if x is None or isinstance(x, (bool, int, float, complex, str)): return repr(x)
+    if isinstance(x, np.ndarray): return ("ndarray", x.shape, str(x.dtype), x.tobytes())
+    if isinstance(x, (list, tuple)): return (type(x).__name__, [obj_fp(v, depth + 1) for v in x])
+    if isinstance(x, dict): return ("dict", sorted((repr(k), obj_fp(v, depth + 1)) for k, v in x.items()))
+    if hasattr(x, "__dict__") and depth < 3:
+        return (type(x).__name__, sorted((k, obj_fp(v, depth + 1)) for k, v in vars(x).items()))
+    return type(x).__name__
+
+def default_objects():
+    """every object held as a DEFAULT ARGUMENT by the constructors on the observed path (looked up at call time, so
+    that a default object introduced by a change of the code is found as well)"""
+    c = classes()
+    out = []
+    klasses = [c["AbstractInversion"], c["FitDataset"], c["FitImaging"], c["aa"].DatasetModel, c["Preloads"], c["SettingsInversion"]]
+    if "FitInterferometer" in c: klasses.append(c["FitInterferometer"])
+    for k in klasses:
+        f = k.__init__
+        for d in tuple(getattr(f, "__defaults__", None) or ()) + tuple((getattr(f, "__kwdefaults__", None) or {}).values()):
+            if not (d is None or isinstance(d, (bool, int, float, complex, str))): out.append((k.__name__, d))
+    return out
+def defaults_fp(): return [(n, obj_fp(d)) for n, d in default_objects()]
+
 def inv_fingerprint(inv):
     fp = [np.array(inv._s, copy=True)]
     for o in inv.linear_obj_list:
         if o.regularization is not None: fp.append(np.array(o.regularization._matrix, copy=True))
-    return fp
+    return fp, obj_fp(inv.settings), obj_fp(inv.preloads)
 def inv_fingerprint_changed(inv, fp):
     now = inv_fingerprint(inv)
-    return not all(a.shape == b.shape and np.array_equal(a, b, equal_nan=True) for a, b in zip(fp, now))
+    return (not all(a.shape == b.shape and np.array_equal(a, b, equal_nan=True) for a, b in zip(fp[0], now[0]))
+            or fp[1] != now[1] or fp[2] != now[2])
 
 def inv_tables(iv):
     """exact principal sub-determinants on the regularized indices (keys of the ln table)"""
@@ -499,8 +720,17 @@ def make_mask(aa, maskarr, geom):
     ps, origin = GEOMS[geom]
     return aa.Mask2D(mask=maskarr, pixel_scales=ps, origin=origin)
 
-def make_array(aa, mask, maskarr, v, mode, route):
-    """v: full (h, w) values, garbage in masked pixels"""
+DTYPES = {"float64": np.float64, "float32": np.float32, "int64": np.int64, "int32": np.int32, "int8": np.int8, "bool": np.bool_}
+def make_array(aa, mask, maskarr, v, mode, route, dtype=None):
+    """v: full (h, w) values, garbage in masked pixels; dtype: the KIND of the stored array ('list' = built from a nested
+    Python list of Python numbers, which numpy types as int64 when every value is integral)"""
+    if dtype == "list":
+        ints = bool(np.all(v == np.round(v)))
+        conv = (lambda x: int(x)) if ints else (lambda x: float(x))
+        if mode == "slim": return aa.Array2D(values=[conv(x) for x in v[~maskarr]], mask=mask)
+        return aa.Array2D(values=[[conv(x) for x in r] for r in np.where(maskarr, 0.0, v)], mask=mask,
+                          store_native=True).with_new_array(np.array([[conv(x) for x in r] for r in v]))
+    if dtype is not None: v = v.astype(DTYPES[dtype])
     if mode == "slim":
         fresh = lambda: aa.Array2D(values=v[~maskarr], mask=mask)
         if route == "arith":
@@ -510,7 +740,7 @@ def make_array(aa, mask, maskarr, v, mode, route):
         if route == "native_slim": return fresh().native.slim
         if route == "from_native2d": return aa.Array2D(values=v.copy(), mask=mask)
         return fresh()
-    fresh = lambda: aa.Array2D(values=np.where(maskarr, 0.0, v), mask=mask, store_native=True).with_new_array(v.copy())
+    fresh = lambda: aa.Array2D(values=np.where(maskarr, v.dtype.type(0), v), mask=mask, store_native=True).with_new_array(v.copy())
     if route == "arith":
         g = fresh(); return 0.5 * g + 0.5 * g          # masked pixels keep their garbage
     if route == "view": return fresh()[:]
@@ -545,18 +775,33 @@ def build_env(inp):
         model = make_array(aa, mask, maskarr, V["model"], mode, "fresh")
     else:
         mask = make_mask(aa, maskarr, geom)
-        dataset = aa.Imaging(data=make_array(aa, mask, maskarr, V["data"], mode, route),
-                             noise_map=make_array(aa, mask, maskarr, V["noise"], mode, route))
-        model = make_array(aa, mask, maskarr, V["model"], mode, route)
+        dt = inp.get("dtypes") or {}
+        dataset = aa.Imaging(data=make_array(aa, mask, maskarr, V["data"], mode, route, dt.get("data")),
+                             noise_map=make_array(aa, mask, maskarr, V["noise"], mode, route, dt.get("noise")),
+                             check_noise_map=not dt)
+        model = make_array(aa, mask, maskarr, V["model"], mode, route, dt.get("model"))
+        if inp.get("model_nd"): model = np.array(np.asarray(model), copy=True)     # a plain ndarray as the model data
     return {"dataset": dataset, "model": model, "use_mask": mode == "native", "native": mode != "slim"}
 
-def make_fit(env, inp_via, sky, inv, model=None):
+class Both:
+    """the properties a direct AbstractFit subclass has are read from it, the others (reduced chi-squared, figure of
+    merit, residual flux fraction, ...) from a FitDataset on the same arrays"""
+    def __init__(self, a, b): self._a, self._b = a, b
+    def __getattr__(self, k): return getattr(self._a if hasattr(type(self._a), k) else self._b, k)
+
+def make_fit(env, inp_via, sky, inv, model=None, dataset_model="fresh"):
+    """dataset_model: 'fresh' (a new DatasetModel carrying sky) | 'default' (none passed) | a DatasetModel object"""
     c = classes(); aa = c["aa"]
     model = env["model"] if model is None else model
     if inp_via == "fitdataset":
         return c["HFitDataset"](env["dataset"], model, inversion=inv, use_mask_in_fit=env["use_mask"])
-    return c["HFitImaging"](env["dataset"], model, inversion=inv, use_mask_in_fit=env["use_mask"],
-                            dataset_model=aa.DatasetModel(background_sky_level=sky))
+    if inp_via == "abstract":     # slim / unmasked native, no inversion, no sky
+        return Both(c["HAbstractFit"](env["dataset"], model),
+                    c["HFitDataset"](env["dataset"], model, inversion=None, use_mask_in_fit=False))
+    if dataset_model == "default":
+        return c["HFitImaging"](env["dataset"], model, inversion=inv, use_mask_in_fit=env["use_mask"])
+    if dataset_model == "fresh": dataset_model = aa.DatasetModel(background_sky_level=sky)
+    return c["HFitImaging"](env["dataset"], model, inversion=inv, use_mask_in_fit=env["use_mask"], dataset_model=dataset_model)
 
 def snapshot(dataset, model):
     return {"mask": np.array(np.asarray(dataset.mask), dtype=bool, copy=True), "data": np.array(np.asarray(dataset.data), dtype=float, copy=True),
@@ -596,7 +841,7 @@ def same_out(a, b):
         return x == y
     return [k for k in a if not eq(a[k], b.get(k))]
 
-def fit_case(snap, use_mask, sky, ivd, o):
+def fit_case(snap, use_mask, sky, ivd, o, tolerant=False):
     """the Coq case of one read of a fit (inputs = snapshot of the live arrays) and the Python-side cross-check of
     the ln-dependent scalars against math.log -> (coq, py_ok, [detail])"""
     bits = [int(b) for b in snap["mask"].ravel()]
@@ -629,7 +874,7 @@ def fit_case(snap, use_mask, sky, ivd, o):
     xrff = list(o["rff"])
     for i, x in enumerate(fd):
         if x == 0.0 and math.copysign(1.0, x) < 0 and i < len(xrff) and math.isinf(xrff[i]): xrff[i] = -xrff[i]
-    coq = f"(KFitX {ctbl(tbl)} TP {f} {out} {xl(xrff)} {xl(o['snr'])})"
+    coq = f"({'KFitR' if tolerant else 'KFitX'} {ctbl(tbl)} TP {f} {out} {xl(xrff)} {xl(o['snr'])})"
     py_ok = True; detail = []
     if all(x > 0 for x in fitted_noise):
         S = Fraction(sky)
@@ -655,30 +900,69 @@ def fit_case(snap, use_mask, sky, ivd, o):
             if not ok: py_ok = False; detail.append(f"{k}: implementation {got}, definition {v}")
     return coq, py_ok, detail
 
-def read_fit(fit, env, model, use_mask, sky, ivd, order=None, inv=None):
+def structure_defects(fit, dataset):
+    """the maps are STRUCTURES of the kind of the data (same class, an equal mask with the same geometry, the same storage
+    mode), and the structures DERIVED from them (.native / .slim) carry the same values on the unmasked pixels"""
+    out = []
+    data = dataset.data
+    if not hasattr(data, "store_native"): return out
+    mk = np.array(np.asarray(dataset.mask), dtype=bool)
+    with np.errstate(all="ignore"):
+        for name in ("data", "residual_map", "normalized_residual_map", "chi_squared_map", "signal_to_noise_map"):
+            v = getattr(fit, name)
+            if type(v) is not type(data): out.append(f"{name} is a {type(v).__name__}, the data is a {type(data).__name__}"); continue
+            if v.store_native != data.store_native: out.append(f"{name}: store_native = {v.store_native}, the data has {data.store_native}")
+            vm = np.array(np.asarray(v.mask), dtype=bool)
+            if vm.shape != mk.shape or not np.array_equal(vm, mk) or v.mask.pixel_scales != dataset.mask.pixel_scales or v.mask.origin != dataset.mask.origin:
+                out.append(f"{name} does not carry the dataset's mask / geometry")
+                continue
+            if name in ("residual_map", "chi_squared_map"):
+                a = np.asarray(v.native, dtype=float)[~mk]; b = np.asarray(v.slim, dtype=float)
+                if a.shape != b.shape or not np.array_equal(a, b, equal_nan=True): out.append(f"{name}.native and {name}.slim differ on the unmasked pixels")
+    return out
+
+def read_fit(fit, env, model, use_mask, sky, ivd, order=None, inv=None, tolerant=False):
     """snapshot the caller's arrays, read everything, check that the reads did not modify the caller's arrays
     -> (coq, py_ok, [detail], o)"""
     before = snapshot(env["dataset"], model)
     ifp = inv_fingerprint(inv) if inv is not None else None
     o = observe(fit, order)
     after = snapshot(env["dataset"], model)
-    coq, py_ok, detail = fit_case(before, use_mask, sky, ivd, o)
+    coq, py_ok, detail = fit_case(before, use_mask, sky, ivd, o, tolerant=tolerant)
     ch = snapshot_changed(before, after)
     if ch:
         py_ok = False; detail.append("reading the fit modified the caller's " + ", ".join(ch) + " in place")
+    st = structure_defects(fit, env["dataset"])
+    if st: py_ok = False; detail.extend(st)
     if inv is not None and inv_fingerprint_changed(inv, ifp):
-        py_ok = False; detail.append("reading the fit modified the inversion's reconstruction / regularization matrices in place")
+        py_ok = False; detail.append("reading the fit modified the inversion's reconstruction / regularization matrices / settings / preloads object in place")
     return coq, py_ok, detail, o
 
 def fit_kind(inp):
     return (f"fit/{inp['mode']}/{'sky' if inp['sky'] else 'nosky'}/{'noinv' if inp['inv'] is None else 'inv'}/{inp['via']}"
-            + ("" if inp.get("route", "fresh") == "fresh" else "/" + inp["route"]))
+            + ("" if inp.get("route", "fresh") == "fresh" else "/" + inp["route"])
+            + ("/kinds" if inp.get("dtypes") or inp.get("model_nd") else "") + ("/tolerant" if inp.get("tolerant") else ""))
+
+def may_refuse(inp):
+    """computed from the INPUT: the masked-native path writes into np.zeros_like(data); with integer / bool typed data
+    and no sky subtraction numpy refuses the float result loudly (UFuncTypeError: same-kind casting).  Such a case may
+    either be refused that way or return the values of the model; anything else (a silently truncated value) is reported."""
+    dt = (inp.get("dtypes") or {}).get("data")
+    if dt == "list": dt = "int64" if all(float(x) == round(float(x)) for x in inp["data"]) else "float64"
+    return inp["mode"] == "native" and inp["sky"] == 0.0 and dt is not None and not dt.startswith("float")
 
 def run_fit(inp):
     env = build_env(inp)
     inv = None if inp["inv"] is None else make_inv(inp["inv"])
     fit = make_fit(env, inp["via"], inp["sky"], inv)
-    coq, py_ok, detail, o = read_fit(fit, env, env["model"], env["use_mask"], inp["sky"], inp["inv"], inv=inv)
+    try:
+        coq, py_ok, detail, o = read_fit(fit, env, env["model"], env["use_mask"], inp["sky"], inp["inv"], inv=inv,
+                                         tolerant=bool(inp.get("tolerant")))
+    except TypeError as e:
+        if may_refuse(inp) and "Cannot cast ufunc" in str(e):
+            _COUNTS["loud_refusals"] += 1
+            return {"coq": None, "out": "refused: " + str(e)[:120], "py_ok": True, "nontrivial": True, "kind": fit_kind(inp) + "/refused"}
+        raise
     return {"coq": coq, "out": o, "py_ok": py_ok, "nontrivial": True, "detail": "; ".join(detail) or None, "kind": fit_kind(inp)}
 
 def set_px(arr, native, shape, pos, val):
@@ -741,6 +1025,110 @@ def run_hist(inp):
     return {"coq": coqs[0], "extra_coq": coqs[1:], "out": outs, "py_ok": py_ok, "nontrivial": True,
             "detail": "; ".join(detail) or None, "kind": "hist/" + base["mode"] + ("/inv" if inv is not None else "")}
 
+def run_dmhist(inp):
+    base = inp["base"]; shape = base["shape"]
+    env = build_env(base); ds = env["dataset"]; native = env["native"]; um = env["use_mask"]
+    c = classes(); aa = c["aa"]
+    inv = None if base["inv"] is None else make_inv(base["inv"])
+    coqs, outs, detail = [], [], []; py_ok = True
+    def step(tag, fit, model, sky):
+        nonlocal py_ok
+        coq, ok, det, o = read_fit(fit, env, model, um, sky, base["inv"], inv=inv)
+        coqs.append(coq); outs.append(o)
+        if not ok: py_ok = False; detail.extend(f"[{tag}] {x}" for x in det)
+    maskarr = np.array(np.asarray(ds.mask), dtype=bool)
+    model2 = make_array(aa, ds.mask, maskarr, np.array(inp["model2"], dtype=float).reshape(shape), "native" if native else "slim", "fresh")
+    m1 = env["model"]
+    fitA = make_fit(env, "imaging", 0.0, inv, dataset_model="default")
+    step("fit built without a DatasetModel", fitA, m1, 0.0)
+    fitA.dataset_model.background_sky_level = inp["s1"]
+    step("the same fit after the user set the sky level on the fit's own DatasetModel", fitA, m1, inp["s1"])
+    fitB = make_fit(env, "imaging", 0.0, inv, model=model2, dataset_model="default")
+    step("a second fit built without a DatasetModel", fitB, model2, 0.0)
+    shared = (c["HDatasetModel"] if inp["sub"] else aa.DatasetModel)(background_sky_level=inp["s2"])
+    fitC = make_fit(env, "imaging", None, inv, dataset_model=shared)
+    fitD = make_fit(env, "imaging", None, inv, model=model2, dataset_model=shared)
+    fp = obj_fp(shared)
+    step("first fit on a shared DatasetModel object", fitC, m1, inp["s2"])
+    step("second fit on the shared DatasetModel object", fitD, model2, inp["s2"])
+    if obj_fp(shared) != fp: py_ok = False; detail.append("reading the fits modified the caller's DatasetModel object")
+    shared.background_sky_level = inp["s3"]
+    step("first fit after the user edited the shared DatasetModel", fitC, m1, inp["s3"])
+    step("second fit after the user edited the shared DatasetModel", fitD, model2, inp["s3"])
+    fitE = make_fit(env, "fitdataset", 0.0, inv)
+    step("FitDataset built without a DatasetModel", fitE, m1, 0.0)
+    return {"coq": coqs[0], "extra_coq": coqs[1:], "out": outs, "py_ok": py_ok, "nontrivial": True,
+            "detail": "; ".join(detail) or None, "kind": "dmhist/" + base["mode"] + ("/inv" if inv is not None else "")}
+
+def run_prod(inp):
+    c = classes(); aa = c["aa"]
+    from autoarray.inversion.inversion.imaging.mapping import InversionImagingMapping
+    h, w = inp["shape"]
+    inner = np.array(inp["mask"], dtype=bool).reshape((h, w))
+    mk = np.ones((h + 2, w + 2), dtype=bool); mk[1:-1, 1:-1] = inner        # room for the blurring region of the PSF
+    mask = aa.Mask2D(mask=mk, pixel_scales=1.0)
+    full = lambda vals, fill: np.where(mk, fill, 0.0) + np.array(aa.Array2D(values=vals, mask=mask).native)
+    psf = aa.Kernel2D.no_mask(values=PSFS[inp["psf"]], pixel_scales=1.0)
+    ds = aa.Imaging(data=aa.Array2D.no_mask(full(inp["data"], 99.0), pixel_scales=1.0),
+                    noise_map=aa.Array2D.no_mask(full(inp["noise"], 2.0), pixel_scales=1.0), psf=psf).apply_mask(mask=mask)
+    grid = aa.Grid2D.from_mask(mask=mask)
+    def objs_from(blocks):
+        out = []
+        for (p, r), kind, mp, b in zip(inp["objs"], inp["kinds"], inp["maps"], blocks):
+            reg = c["HReg2" if inp["deep"] else "HReg"](b, p) if r else None
+            if kind == "real":
+                osamp = aa.OverSamplerUniform(mask=mask, sub_size=1)
+                g = osamp.over_sampled_grid
+                mg = aa.MapperGrids(mask=mask, source_plane_data_grid=g, image_plane_mesh_grid=None, adapt_data=None,
+                                    source_plane_mesh_grid=aa.Mesh2DRectangular.overlay_grid(grid=g, shape_native=tuple(inp["real"])))
+                out.append(aa.MapperRectangular(mapper_grids=mg, over_sampler=osamp, border_relocator=None, regularization=reg))
+                continue
+            M = np.array(mp, dtype=float).reshape((len(inp["data"]), p))
+            if kind == "func": out.append(aa.m.MockLinearObjFuncList(parameters=p, grid=grid, mapping_matrix=M))
+            else: out.append((c["HMapper2"] if inp["deep"] else aa.m.MockMapper)(parameters=p, mapping_matrix=M, regularization=reg, edge_pixel_list=[]))
+        return out
+    from autoarray.inversion.inversion.imaging.w_tilde import InversionImagingWTilde
+    wts = inp.get("wtilde") or [False, False]
+    settings = aa.SettingsInversion(use_w_tilde=wts[0], force_edge_pixels_to_zeros=inp["edge_zero"])
+    settings_b = settings if wts[1] == wts[0] else aa.SettingsInversion(use_w_tilde=wts[1], force_edge_pixels_to_zeros=inp["edge_zero"])
+    preF = None if inp["preF"] is None else np.array(inp["preF"], dtype=float)
+    preloads = c["Preloads"](curvature_matrix=preF) if preF is not None else c["Preloads"]()
+    coqs, outs, detail = [], [], []; py_ok = True
+    invs = []
+    for tag, blocks, factory, wt, settings in (("first inversion", inp["blocks"], True, wts[0], settings),
+                                               ("second inversion (same preloads object)", inp["blocks2"], inp["factory2"] or wts[1], wts[1], settings_b)):
+        objs = objs_from(blocks)
+        mkinv = aa.Inversion if factory else InversionImagingMapping
+        inv = mkinv(dataset=ds, linear_obj_list=objs, settings=settings, preloads=preloads)
+        if not isinstance(inv, InversionImagingWTilde if wt else InversionImagingMapping): raise RuntimeError("factory returned " + type(inv).__name__)
+        sfp, pfp = obj_fp(settings), obj_fp(preloads)
+        F = np.array(inv.curvature_matrix, dtype=float, copy=True)        # snapshot BEFORE the terms are read
+        iv = {"objs": inp["objs"], "blocks": blocks, "F": F.tolist(), "s": [float(x) for x in np.asarray(inv.reconstruction, dtype=float)]}
+        o = observe_inv(inv, iv)
+        coq, ok, det = inv_case(iv, o, tolerant=True)
+        coqs.append(coq); outs.append(o)
+        F2 = np.array(inv.curvature_matrix, dtype=float)
+        if not np.array_equal(F, F2): ok = False; det.append("curvature_matrix differs after the terms were read (F + H handed out as F)")
+        if preF is not None and not np.array_equal(F, preF): ok = False; det.append("curvature_matrix is not the preloaded matrix")
+        if obj_fp(settings) != sfp or obj_fp(preloads) != pfp:
+            ok = False; det.append("reading the inversion modified the caller's settings / preloads object")
+        # the fit on top of it
+        model = inv.mapped_reconstructed_image
+        env = {"dataset": ds, "model": model, "use_mask": False, "native": False}
+        fit = make_fit(env, "imaging", inp["sky"], inv)
+        fcoq, fok, fdet, fo = read_fit(fit, env, model, False, inp["sky"], iv, tolerant=True)
+        coqs.append(fcoq); outs.append(fo)
+        if obj_fp(settings) != sfp or obj_fp(preloads) != pfp:
+            fok = False; fdet.append("reading the fit modified the caller's settings / preloads object")
+        if not (ok and fok): py_ok = False; detail.extend(f"[{tag}] {x}" for x in det + fdet)
+        invs.append((inv, iv, o))
+    for inv, iv, o in invs:
+        bad = same_out(o, observe_inv(inv, iv))
+        if bad: py_ok = False; detail.append("[re-read] a second read of the same inversion differs in " + ", ".join(bad))
+    return {"coq": coqs[0], "extra_coq": coqs[1:], "out": outs, "py_ok": py_ok, "nontrivial": True, "detail": "; ".join(detail) or None,
+            "kind": "prod/" + inv_kind({"objs": inp["objs"]}) + ("/preF" if preF is not None else "")
+                    + ("/real-mapper/" + "+".join("wtilde" if x else "mapping" for x in wts) if inp.get("real") else "")}
+
 def observe_inv(inv, iv):
     o = {}
     o["noreg"] = [int(x) for x in inv.no_regularization_index_list]
@@ -755,12 +1143,12 @@ def observe_inv(inv, iv):
         o["ldr"] = float(np.real(inv.log_det_regularization_matrix_term))
     return o
 
-def inv_case(iv, o):
+def inv_case(iv, o, tolerant=False):
     reg, dfh, dh, H, FH = inv_tables(iv)
     tbl = ln_table([], (dfh, dh))
     out = (f"(Build_invout {clist([cnat(x) for x in o['noreg']])} {qm(o['H'])} {qm(o['FH'])} {qm(o['Hred'])} {qm(o['FHred'])} "
            f"{ql(o['sred'])} {cq(fq(o['regterm']))} {cq(fq(o['ldc']))} {cq(fq(o['ldr']))})")
-    coq = f"(K0 (KInv {ctbl(tbl)} {cinv(iv)} {out}))"
+    coq = f"(KInvR {ctbl(tbl)} {cinv(iv)} {out})" if tolerant else f"(K0 (KInv {ctbl(tbl)} {cinv(iv)} {out}))"
     py_ok = True; detail = []
     if reg:
         for k, d in (("ldc", dfh), ("ldr", dh)):
@@ -778,7 +1166,7 @@ def read_inv(inv, iv):
     o = observe_inv(inv, iv)
     coq, py_ok, detail = inv_case(iv, o)
     if inv_fingerprint_changed(inv, fp):
-        py_ok = False; detail.append("reading the inversion modified the caller's reconstruction / regularization matrices in place")
+        py_ok = False; detail.append("reading the inversion modified the caller's reconstruction / regularization matrices / settings / preloads object in place")
     return coq, py_ok, detail, o
 
 def consistent_preloads(iv):
@@ -839,7 +1227,7 @@ def run_invhist(inp):
     object: read, re-read, another (F, s) on the same objects, other regularization flags with the same sizes"""
     c = classes()
     a = inp["a"]; b = dict(a, F=inp["F2"], s=inp["s2"]); cc = inp["c"]
-    settings, preloads = c["SettingsInversion"](), c["Preloads"]()
+    settings, preloads = (c["SettingsInversion"](), c["Preloads"]()) if inp.get("shared", True) else (None, None)
     objs = make_objs(a)
     coqs, outs, detail = [], [], []; py_ok = True
     invs = []
@@ -853,7 +1241,7 @@ def run_invhist(inp):
         bad = same_out(o, observe_inv(inv, iv))
         if bad: py_ok = False; detail.append("[re-read] a second read of the same inversion differs in " + ", ".join(bad))
     return {"coq": coqs[0], "extra_coq": coqs[1:], "out": outs, "py_ok": py_ok, "nontrivial": True,
-            "detail": "; ".join(detail) or None, "kind": "invhist/" + inv_kind(a)}
+            "detail": "; ".join(detail) or None, "kind": "invhist/" + inv_kind(a) + ("" if inp.get("shared", True) else "/defaults")}
 
 def run_util(inp):
     c = classes(); aa = c["aa"]
@@ -866,6 +1254,24 @@ def run_util(inp):
         mask = aa.Mask2D(mask=mk, pixel_scales=1.0)
         wrap = lambda v: aa.Array2D(values=np.where(mk, 0.0, v), mask=mask, store_native=True).with_new_array(v.copy())
         d, n, m = wrap(d), wrap(n), wrap(m)
+    coqs, outs, details = [], [], []; py_all = True
+    # the same argument objects are used for a SECOND round of calls after the user edited them in place (a function that
+    # remembers something about its arguments -- by identity, shape, ... -- returns stale values then)
+    for rnd in range(2 if inp.get("edits") else 1):
+        if rnd == 1:
+            for which, pos, val in inp["edits"]:
+                arr = {"data": d, "noise": n, "model": m}[which]
+                if len(shape) == 2: arr[pos // shape[1], pos % shape[1]] = val
+                else: arr[pos] = val
+        D, N, M = flat(d), flat(n), flat(m)
+        coq, extra, o, py_ok, detail = util_round(fu, d, n, m, mask, inp["mask"], D, N, M)
+        coqs += [coq] + extra; outs.append(o)
+        if not py_ok: py_all = False; details.append(("[second round, after in-place edits] " if rnd else "") + detail)
+    return {"coq": coqs[0], "extra_coq": coqs[1:], "out": outs[0] if len(outs) == 1 else outs, "py_ok": py_all, "nontrivial": True,
+            "kind": "util/" + ("array2d" if inp.get("wrap") else f"{len(shape)}d") + ("/edits" if inp.get("edits") else ""),
+            "detail": "; ".join(details) or None}
+
+def util_round(fu, d, n, m, mask, bits, D, N, M):
     before = [np.array(np.asarray(x), copy=True) for x in (d, n, m, mask)]
     o = {}
     with np.errstate(all="ignore"):
@@ -888,19 +1294,19 @@ def run_util(inp):
         kept = flat(r) == o["res"] and flat(rw) == o["resw"] and flat(cm) == o["cmap"] and flat(cmw) == o["cmapw"]
     after = [np.asarray(x) for x in (d, n, m, mask)]
     unchanged = all(np.array_equal(a, b) for a, b in zip(before, after)) and kept
-    tbl = ln_table(inp["noise"])
+    tbl = ln_table(N)
     out = (f"(Build_utilout {ql(o['res'])} {ql(o['nres'])} {ql(o['cmap'])} {cq(fq(o['chi2']))} {cq(fq(o['nn']))} "
            f"{ql(o['resw'])} {ql(o['nresw'])} {ql(o['cmapw'])} {cq(fq(o['chi2w']))} {cq(fq(o['fast']))} {cq(fq(o['nnw']))} "
            f"{qol([fopt(x) for x in o['rff']])} {qol([fopt(x) for x in o['rffw']])})")
-    coq = (f"(K0 (KUtil {ctbl(tbl)} TP {clist([cbool(b) for b in inp['mask']])} {ql(inp['data'])} "
-           f"{ql(inp['noise'])} {ql(inp['model'])} {out}))")
-    extra = [f"(KUtilX {ql(o['res'])} {ql(inp['data'])} {clist([cbool(b) for b in inp['mask']])} {xl(o['rff'])} {xl(o['rffx'])})"]
-    nn = sum(math.log(2 * math.pi * x * x) for x in inp["noise"])
-    nnw = sum(math.log(2 * math.pi * x * x) for x, b in zip(inp["noise"], inp["mask"]) if not b)
+    coq = (f"(K0 (KUtil {ctbl(tbl)} TP {clist([cbool(b) for b in bits])} {ql(D)} "
+           f"{ql(N)} {ql(M)} {out}))")
+    extra = [f"(KUtilX {ql(o['res'])} {ql(D)} {clist([cbool(b) for b in bits])} {xl(o['rff'])} {xl(o['rffx'])})"]
+    nn = sum(math.log(2 * math.pi * x * x) for x in N)
+    nnw = sum(math.log(2 * math.pi * x * x) for x, b in zip(N, bits) if not b)
     py_ok = rel_close(o["nn"], nn) and rel_close(o["nnw"], nnw) and unchanged
-    return {"coq": coq, "extra_coq": extra, "out": o, "py_ok": py_ok, "nontrivial": True, "kind": "util/" + ("array2d" if inp.get("wrap") else f"{len(shape)}d"),
-            "detail": None if py_ok else ("a fit_util function modified one of its arguments in place" if not unchanged
-                                          else f"noise normalization {o['nn']} / {o['nnw']} vs {nn} / {nnw}")}
+    detail = None if py_ok else ("a fit_util function modified one of its arguments in place" if not unchanged
+                                 else f"noise normalization {o['nn']} / {o['nnw']} vs {nn} / {nnw}")
+    return coq, extra, o, py_ok, detail
 
 def run_compose(inp):
     from autoarray.fit import fit_util as fu
@@ -996,7 +1402,7 @@ def vis_classes():
         class NoTransformer:
             """the fit statistics never use the transformer (pylops is not installed: the production classes cannot be built)"""
             def __init__(self, uv_wavelengths, real_space_mask): pass
-        c.update(HFitInterferometer=HFitInterferometer, NoTransformer=NoTransformer)
+        c.update(HFitInterferometer=HFitInterferometer, NoTransformer=NoTransformer, FitInterferometer=FitInterferometer)
     return c
 
 def zc(p): return complex(p[0], p[1])
@@ -1046,9 +1452,16 @@ def run_vis(inp):
     a second fit object (other model) on the same dataset"""
     c = vis_classes(); aa = c["aa"]
     n = len(inp["data"])
-    data = aa.Visibilities(visibilities=np.array([zc(p) for p in inp["data"]], dtype=complex))
-    noise = aa.VisibilitiesNoiseMap(visibilities=np.array([zc(p) for p in inp["noise"]], dtype=complex))
-    model = aa.Visibilities(visibilities=np.array([zc(p) for p in inp["model"]], dtype=complex))
+    kinds = inp.get("kinds") or {}
+    def mk(cls, pairs, kind):
+        if kind == "pairs": return cls(visibilities=np.array([[float(p[0]), float(p[1])] for p in pairs], dtype=float).reshape((len(pairs), 2)))
+        if kind == "listpairs": return cls(visibilities=[[float(p[0]), float(p[1])] for p in pairs])
+        if kind == "list": return cls(visibilities=[zc(p) for p in pairs])
+        if kind == "c64": return cls(visibilities=np.array([zc(p) for p in pairs], dtype=np.complex64))
+        return cls(visibilities=np.array([zc(p) for p in pairs], dtype=complex))
+    data = mk(aa.Visibilities, inp["data"], kinds.get("data"))
+    noise = mk(aa.VisibilitiesNoiseMap, inp["noise"], kinds.get("noise"))
+    model = mk(aa.Visibilities, inp["model"], kinds.get("model"))
     ds = aa.Interferometer(data=data, noise_map=noise, uv_wavelengths=np.array([[float(k), 1.0] for k in range(n)]),
                            real_space_mask=aa.Mask2D.all_false(shape_native=(2, 2), pixel_scales=1.0), transformer_class=c["NoTransformer"])
     inv = None if inp["inv"] is None else make_inv(inp["inv"])
@@ -1077,7 +1490,7 @@ def run_vis(inp):
     coqs.append(coq); outs.append(o)
     if not ok: py_ok = False; detail.extend(f"[second fit object on the same dataset] {x}" for x in det)
     return {"coq": coqs[0], "extra_coq": coqs[1:], "out": outs, "py_ok": py_ok, "nontrivial": True,
-            "detail": "; ".join(detail) or None, "kind": "vis/" + ("mask" if inp["use_mask"] else "nomask") + ("/inv" if inv is not None else "")}
+            "detail": "; ".join(detail) or None, "kind": "vis/" + ("mask" if inp["use_mask"] else "nomask") + ("/inv" if inv is not None else "") + ("/kinds" if kinds else "")}
 
 def run_utilc(inp):
     from autoarray.fit import fit_util as fu
@@ -1109,13 +1522,68 @@ def run_utilcov(inp):
     return {"coq": coq, "out": chi, "py_ok": unchanged, "nontrivial": True, "kind": "utilcov",
             "detail": None if unchanged else "a fit_util function modified one of its arguments in place"}
 
-_COUNTS = {"impl_exceptions": 0}
+# ---- the canary: ONE persistent tiny fit (same dataset, arrays, fit object for the whole run) and one persistent pair of linear
+# objects, evaluated before and after every case with the user's in-place edits toggled in between.  Whatever a case (or the code)
+# leaves behind in a module-level / default-argument / class-level object, or remembers about an argument by identity or shape,
+# makes the canary deviate from its closed-form values; because the toggle happens inside run_case, the replay of ANY single case
+# reproduces such a failure on its own.
+_CANARY = {}
+CANARY_STATES = [{"data": [3.0, 1.0], "noise": [1.0, 2.0], "model": [1.0, 1.5], "H": 2.0, "s": 3.0},
+                 {"data": [5.0, -1.0], "noise": [4.0, 0.25], "model": [0.5, 1.0], "H": 8.0, "s": -1.0}]
+def canary_check():
+    c = classes(); aa = c["aa"]
+    K = _CANARY
+    if not K:
+        mask = aa.Mask2D(mask=np.array([[False, False]]), pixel_scales=1.0)
+        K["data"], K["noise"], K["model"] = (aa.Array2D(values=np.array(CANARY_STATES[0][k]), mask=mask) for k in ("data", "noise", "model"))
+        K["ds"] = aa.Imaging(data=K["data"], noise_map=K["noise"])
+        K["fit"] = c["HFitImaging"](K["ds"], K["model"])                   # built WITHOUT a DatasetModel
+        K["reg"] = c["HReg"]([[CANARY_STATES[0]["H"]]], 1); K["obj"] = c["HObj"](1, K["reg"]); K["free"] = c["HObj"](1, None)
+        K["k"] = 0
+    K["k"] = 1 - K["k"]; st = CANARY_STATES[K["k"]]
+    for k in ("data", "noise", "model"):
+        for i, v in enumerate(st[k]): K[k][i] = v                          # the user's in-place edits
+    K["reg"]._matrix[0, 0] = st["H"]
+    inv = c["HInv"]([K["free"], K["obj"]], [[1.0, 0.0], [0.0, 1.0]], [7.0, st["s"]])    # the constructor's own defaults
+    fit2 = c["HFitImaging"](K["ds"], K["model"], inversion=inv)
+    r = [(d - m) / n for d, m, n in zip(st["data"], st["model"], st["noise"])]
+    chi = sum(x * x for x in r); nn = sum(math.log(2 * math.pi * n * n) for n in st["noise"])
+    reg = st["s"] * st["H"] * st["s"]; ldc = math.log(1.0 + st["H"]); ldr = math.log(st["H"])
+    want = {"chi_squared": chi, "noise_normalization": nn, "log_likelihood": -0.5 * (chi + nn), "figure_of_merit": -0.5 * (chi + nn)}
+    bad = [f"{k} = {float(getattr(K['fit'], k))!r}, definition {w!r}" for k, w in want.items() if not rel_close(float(getattr(K["fit"], k)), w)]
+    want2 = {"log_evidence": -0.5 * (chi + reg + ldc - ldr + nn), "figure_of_merit": -0.5 * (chi + reg + ldc - ldr + nn),
+             "log_likelihood_with_regularization": -0.5 * (chi + reg + nn)}
+    bad += [f"{k} = {float(getattr(fit2, k))!r}, definition {w!r}" for k, w in want2.items() if not rel_close(float(getattr(fit2, k)), w)]
+    return bad
+
+_COUNTS = {"impl_exceptions": 0, "loud_refusals": 0, "canary_evaluations": 0}
 def run_case(inp):
     op = inp["op"]
     f = {"fit": run_fit, "inv": run_inv, "util": run_util, "compose": run_compose, "hist": run_hist, "invhist": run_invhist,
-         "invp": run_invp, "cov": run_cov, "vis": run_vis, "utilc": run_utilc, "utilcov": run_utilcov}[op]
+         "invp": run_invp, "cov": run_cov, "vis": run_vis, "utilc": run_utilc, "utilcov": run_utilcov, "dmhist": run_dmhist,
+         "prod": run_prod}[op]
     try:
-        return f(inp)
+        if op == "vis": vis_classes()
+        d0 = defaults_fp()
+        c0 = canary_check() if not _CANARY else []          # the first case of a process evaluates both states
+        r = f(inp)
+        c1 = canary_check(); _COUNTS["canary_evaluations"] += 1
+        d1 = defaults_fp()
+        # only the FIRST deviation of a process is attributed (to the case that caused it, or, for state remembered by
+        # identity / shape, to the first case of the process): later cases would fail only because of what that case left behind,
+        # and their replay alone would not reproduce it
+        if (c0 or c1) and not _CANARY.get("reported"):
+            _CANARY["reported"] = True
+            r["py_ok"] = False
+            r["detail"] = ((r.get("detail") or "") + "; the persistent canary fit (a fixed two-pixel fit and inversion, edited in place and "
+                           "re-evaluated " + ("before" if c0 else "after") + " this case) no longer follows its definition -- state remembered "
+                           "across evaluations or left behind in a shared object: " + "; ".join(c0 or c1)).lstrip("; ")
+        if d0 != d1:
+            names = sorted({n for n, f in d0 if (n, f) not in d1} | {n for n, f in d1 if (n, f) not in d0})
+            r["py_ok"] = False
+            r["detail"] = ((r.get("detail") or "") + "; a shared DEFAULT ARGUMENT object was modified (or created) during the case: "
+                           "default of " + ", ".join(names) + ".__init__").lstrip("; ")
+        return r
     except Exception as e:   # the implementation refused an in-scope input: reported as a failing case
         _COUNTS["impl_exceptions"] += 1
         import traceback
@@ -1123,4 +1591,4 @@ def run_case(inp):
                 "detail": f"{type(e).__name__}: {e} :: {traceback.format_exc()[-600:]}"}
 
 def extra_evidence():
-    return {"impl_exceptions": _COUNTS["impl_exceptions"]}
+    return dict(_COUNTS)
